@@ -4,10 +4,13 @@ CONSTANTS
   ACodec = "aac"
   MaxPub = 5
   MaxVer = 2
-  VKinds <- AvcCore
+  VKinds <- AvcMin
   DtPool <- Dt2
   AscPool = {1, 2, 3}
   ProbeMax = 16
   GopNum = 1
+  TJoin = TRUE
+  RJoin = FALSE
+  RMut = "none"
 INVARIANTS WitnessV
 VIEW View
